@@ -14,8 +14,8 @@ shows the condition cannot be dropped — the default range qualifies) and every
 `s` that compiles to `q`: the text `str(q)` compiles, in the same environment, to `q`
 with omitted slice steps written out at every nesting level (`normSegs`), and printing
 that again gives the identical text.  With `C04` the printed text is a valid RFC 9535
-query; `select_normSegs` (pending) is the lemma that writing out the step selects the same
-nodes.  One hypothesis stands for CPython behaviour that is modelled, not proved:
+query; `C12_same_nodes`: writing out the step selects the same nodes, in the same order, on every
+JSON value.  One hypothesis stands for CPython behaviour that is modelled, not proved:
 `FloatRoundTrips` for the float literals of `q` (`repr(float)` then `float()` gives the
 same double; tested by the check on every literal it generates; infinities — literals
 like `1e400`, outside the property's exactly-representable range — do not round-trip).
@@ -30,6 +30,7 @@ import JPV.Proofs.Printer
 import JPV.Proofs.PrinterFilter
 import JPV.Proofs.PrintCompile
 import JPV.Proofs.Pc.NeedsRange
+import JPV.Proofs.NormSelect
 namespace JPV.Props
 open JPV
 
@@ -41,6 +42,10 @@ theorem C12 (env : Impl.Env) (s : Str) (q : Query)
     Impl.compile env (Impl.strQuery q) = .ok (Proofs.normSegs q) ∧
     Impl.strQuery (Proofs.normSegs q) = Impl.strQuery q :=
   Proofs.print_compile_roundtrip env s q h h1 hf
+
+/-- the query denoted by the printed text selects exactly the same nodes, in the same order, on every value -/
+theorem C12_same_nodes (reg : Spec.Registry) (q : Query) (v : Json) :
+    Spec.select reg (Proofs.normSegs q) v = Spec.select reg q v := Proofs.select_normSegs reg q v
 
 /-- the range condition is needed: with an index range that excludes 1, `$[5:6]` prints as `$[5:6:1]`, which that
 environment rejects -/
